@@ -27,6 +27,7 @@ func (x *executor) isEqualPriorityRestamp(a, w *rq) bool {
 // reads a counter that is only incremented later by the registration (check-then-act); a request
 // that registers between another request's check and registration is not seen by it.
 func (x *executor) isSlotCheckRace() bool {
+	x.syncRegistrations()
 	rs := x.mirror("restamp")
 	if rs == nil || !rs.slotOK || rs.watch <= x.sc.Config.Size {
 		return false
@@ -41,11 +42,8 @@ func (x *executor) isSlotCheckRace() bool {
 	})
 	for i, a := range in {
 		for _, b := range in[i+1:] {
-			if a.regSeq == 0 || b.regSeq == 0 {
-				continue
-			}
 			// the two [slot check, registration] intervals overlap
-			if a.checkSeq < b.regSeq && b.checkSeq < a.regSeq {
+			if a.regSeq != 0 && b.regSeq != 0 && a.checkSeq < b.regSeq && b.checkSeq < a.regSeq {
 				return true
 			}
 		}
